@@ -8,3 +8,5 @@ coqc -Q /verif/coq/Wire Wire -Q /verif/coq/Spec Spec -Q /verif/coq/Props Props -
 cp /verif/ocaml/*.ml .
 ocamlfind ocamlopt -O3 -package str -linkpkg -w -a model.mli model.ml base.ml sess.ml p_*.ml driver.ml -o driver 2>/dev/null || \
 ocamlfind ocamlopt -package str -linkpkg -w -a model.mli model.ml base.ml sess.ml p_*.ml driver.ml -o driver
+ocamlfind ocamlopt -O3 -package str -linkpkg -w -a closemodel.mli closemodel.ml c16tool.ml -o c16tool 2>/dev/null || \
+ocamlfind ocamlopt -package str -linkpkg -w -a closemodel.mli closemodel.ml c16tool.ml -o c16tool
